@@ -3,10 +3,54 @@
 import json, sys
 BUILT = {
  # id: (category, engine, technique, text, note)
+ "C01": ("exploration", "xotmc/E-TREE+E-STR",
+   "bounded exhaustive enumeration of strings, small documents/fragments and namespace layouts, each serialised and re-parsed on the real code and compared with the abstract tree",
+   "Every string up to the length bound over a 12-character sharp alphabet (TAB, LF, CR, <, &, >, quotes, ], non-BMP) in attribute and text slots, every document/fragment up to the node bound, every serialisable namespace layout of 1-3 elements and every short namespace URI with characters that need escaping is serialised with to_string, re-parsed, and read back through public navigation; the result must equal the abstract tree (attribute set, declaration map). Trees are built three ways (creation API, parse, moving subtrees).",
+   "Bounded: string length 4/5, 5/6 nodes, fixed alphabets. Trusts the read-back adapter and the abstract tree type."),
+ "C04": ("model_checking", "xotmc/E-BFS",
+   "explicit-state breadth-first search over forests: every mutating API call with every argument tuple of live handles executed on the real Xot, invariants I1-I6 evaluated on every reached state",
+   "All histories up to the depth bound from six colliding start forests (plus a depth-1 sweep from every small tree) over the whole mutating alphabet, including the calls that should be refused; after every call that returns, structural invariants (parent/child/sibling consistency, acyclicity, namespace<attribute<ordinary order, unique keys, node kinds, no adjacent text while consolidation was never off, handle stability, is_removed monotonic, no accessor returns a removed node) are computed through public navigation.",
+   "Bounded: depth 2/3; states deduplicated on a canonical key (argument in DESIGN 2.4)."),
+ "C05": ("model_checking", "xotmc/E-BFS+MForest",
+   "explicit-state BFS on the real code in lock-step with an ordered-tree reference model; full forest read-back compared after every in-contract successful call",
+   "Every manipulation call with every in-contract argument tuple from colliding starts (consolidation on and off, depth 2/3) and from every small forest (depth 1): the reference model predicts the resulting forest, handle identity, liveness and string values; the real forest must match exactly.",
+   "Trusts the 600-line MForest model (it agrees with the implementation on millions of transitions). Which node of a merged text run survives is only checked where statement and rustdoc agree."),
+ "C06": ("model_checking", "xotmc/E-BFS",
+   "explicit-state BFS with every argument tuple of live nodes; forest snapshot before/after every refused call; panics caught",
+   "Every call of the mutating API with every tuple of live nodes of every kind from all reachable forests up to the depth bound: a panic outside the documented element-only accessors, or any observable change after an Err, is a violation.",
+   "The oracle does not predict whether a call is refused. Bounded: depth 2/3."),
  "C07": ("exploration", "xotmc/E-TREE",
    "bounded exhaustive enumeration of all labelled ordered trees x all nodes x all traversal entry points on the real code, compared with lists computed on an abstract tree",
    "All trees up to the node bound (documents, fragment forests, unattached trees, detached attribute/namespace nodes) x every node x every traversal API and Axis value are executed on the real xot code and compared with the abstract tree's document-order lists; complete inside the bound, plus four large instances (chain/fan/attributes/comb).",
    "Trusts: tree construction through the creation API; the 150-line flat-tree reference. Bounded: <= 5 (quick) / 6-8 (thorough) ordinary nodes; fixed label alphabet."),
+ "C09": ("exploration", "xotmc/E-TREE",
+   "bounded exhaustive enumeration of namespace declaration layouts x nodes x prefixes x namespaces, compared with a nearest-declaration-wins resolver",
+   "Every layout of 1-3 elements (540 declaration/name/attribute specs per element; reduced menu for the third element) attached and unattached: namespaces_in_scope, namespace_for_prefix, prefix_for_namespace, unresolved_namespaces, inherited_prefixes, full_name, name_ref, node_name_ref at every node against the NsScope model.",
+   "Hash-ordered results compared as sets. Bounded alphabets: prefixes {'',p,q,xml,r}, namespaces {X,Y,XML,Z}."),
+ "C13": ("exploration", "xotmc/E-TREE pairs",
+   "exhaustive enumeration of all ordered pairs (and triples of a subset) of small subtrees covering every single-feature difference; predicates compared with independently computed canonical forms",
+   "All ordered pairs of ~1000 (quick) / ~5000 (thorough) subtrees x deep_equal, deep_equal_children, deep_equal_xpath, advanced_deep_equal (4 filters x 3 comparisons), shallow_equal, shallow_equal_ignore_attributes (all 40 ignore lists incl. repeats), string_value; transitivity on all triples of a subset.",
+   "Trusts canon_f (60 lines). Comment / PI comparison under a custom text comparison is not pinned by the statement and accepted either way."),
+ "C14": ("exploration", "xotmc/E-TREE+E-STR+E-CFG",
+   "exhaustive enumeration of text strings over {],>,x,CR}, xml:space chains and small trees x every serialisation parameter combination; reparse compared with the source tree by an aligned walk",
+   "Every parameter combination (CDATA-section subsets, unescaped_gt, six declaration forms, indentation with every suppress subset, document vs element root) on every tree of the three sweeps: without indentation the reparse must equal the source; with indentation only whitespace-only text nodes may be added, never in mixed content, xml:space=preserve scope or suppressed elements.",
+   "Re-parsing uses xot's parser (the statement is about xot's reparse)."),
+ "C15": ("exploration", "xotmc/E-TREE",
+   "exhaustive enumeration of redundant namespace layouts; declarations, names and serialisability compared before/after deduplicate_namespaces",
+   "Every layout of 1-3 elements, call on the document and on every element: declarations after are a sub-list of those before, nothing else changes, expressible trees stay serialisable and reparse equal, a second call removes nothing.",
+   "The serialisability clause is checked for trees whose names are all expressible (others are C10's subject)."),
+ "C16": ("exploration", "xotmc/E-TREE+E-CFG",
+   "exhaustive enumeration of serialisable trees x serialisation roots x token parameters; token / event streams compared with string serialisation and with an expected event list computed on the abstract tree",
+   "tokens, pretty_tokens, outputs, write and serialize_xml_write against serialize_xml_string for every ordinary node of every tree as root and all 16 parameter combinations.",
+   "Order of inherited prefix events on the top element is compared as a set."),
+ "C18": ("exploration", "xotmc/E-TREE",
+   "exhaustive enumeration of sibling arrangements of whitespace / non-whitespace / Unicode-space text, elements and comments under nested xml:space values; result compared with the statement's definition",
+   "Every sequence of up to 4 (5) children from a 10-item menu under 2 (3) levels of xml:space values, called on the document, the element and a text node; removed set must be exactly the model's, everything else identical with the same handles; second call changes nothing.",
+   "Empty text nodes are outside the alphabet."),
+ "C20": ("exploration", "xotmc/E-TREE x programs",
+   "exhaustive enumeration of small documents x all permutations of the attach steps x two neighbour preferences, plus parse and fixed:: routes; trees compared by read-back, deep_equal and bytes",
+   "Every abstract document up to the step bound is built by parsing its rendering, by fixed::Document/Element xotify and by every order of stepwise attachment (append/prepend/insert_before/insert_after, bottom-up included); all must read back as the abstract document and serialise identically.",
+   "Orders that transiently make two text nodes adjacent are skipped (consolidation would merge them)."),
 }
 props = [json.loads(l) for l in open('/verif/properties.jsonl')]
 checks = []
